@@ -206,10 +206,10 @@ func generate(seed int64, tier string, search bool) []kase {
 		mul *= 3
 	}
 	specs := []genSpec{
-		{proto: "dkls23", variants: []string{"bbot,k256,sha256", "bbot,p256,sha256", "bbot,k256,sha3-256", "bbot,k256,sha512"}, count: 4 * mul, maxQ: 2 + boolInt(tier == "thorough"), emptyOK: true},
-		{proto: "dkls23", variants: []string{"softspoken,k256,sha256", "softspoken,p256,sha256", "softspoken,k256,sha512"}, count: 5 * mul, maxQ: 3, emptyOK: true},
-		{proto: "lindell22", variants: []string{"bip340,-", "mina,-", "schnorr-k256,sha256", "schnorr-k256-neg,sha256", "schnorr-p256,sha256", "schnorr-k256-le,sha512"}, count: 36 * mul, maxQ: 4, emptyOK: true},
-		{proto: "boldyreva", variants: []string{"short,basic", "short,aug", "short,pop", "long,basic", "long,aug", "long,pop"}, count: 36 * mul, maxQ: 5, emptyOK: true},
+		{proto: "dkls23", variants: []string{"bbot,k256,sha256", "bbot,p256,sha256", "bbot,k256,sha3-256", "bbot,k256,sha512"}, count: 3 * mul, maxQ: 2 + boolInt(tier == "thorough"), emptyOK: true},
+		{proto: "dkls23", variants: []string{"softspoken,k256,sha256", "softspoken,p256,sha256", "softspoken,k256,sha512"}, count: 4 * mul, maxQ: 3, emptyOK: true},
+		{proto: "lindell22", variants: []string{"bip340,-", "mina,-", "schnorr-k256,sha256", "schnorr-k256-neg,sha256", "schnorr-p256,sha256", "schnorr-k256-le,sha512"}, count: 24 * mul, maxQ: 4, emptyOK: true},
+		{proto: "boldyreva", variants: []string{"short,basic", "short,aug", "short,pop", "long,basic", "long,aug", "long,pop"}, count: 24 * mul, maxQ: 5, emptyOK: true},
 		{proto: "cggmp21", variants: []string{"k256,sha256"}, count: cggmpCount(tier), maxQ: 2, emptyOK: true,
 			polFilter: func(a absPolicy) bool { return cggmpHas(a.text) }},
 	}
